@@ -64,6 +64,73 @@ fn flist(xs: &[f64]) -> String {
     s
 }
 
+/// the allocation limit handed to the model (a count of f64 values): the generated bin counts are either far
+/// below it (at most a few million) or far above it (2^33 and more), and the real code is run on the latter in
+/// a forked child whose address space is limited to 4 GiB, so `try_reserve_exact` fails there for certain
+const CAP: u64 = 1 << 30;
+
+fn unallocatable(sb: usize, gb: usize) -> bool {
+    sb as u64 > CAP || gb as u64 > CAP || (sb as u128) * (gb as u128) > CAP as u128
+}
+
+/// `linspace` for grids that can be allocated
+fn lin(a: f64, b: f64, n: usize) -> Vec<f64> {
+    linspace(a, b, n).expect("a small grid can be allocated")
+}
+
+/// runs `work` in a forked child with a 4 GiB address-space limit and a 30 s alarm and returns what it
+/// printed; `abort` when the child died (allocation failure aborts are not catchable) or timed out
+fn forked(work: &mut dyn FnMut() -> String) -> String {
+    unsafe {
+        let mut fds = [0i32; 2];
+        if libc::pipe(fds.as_mut_ptr()) != 0 {
+            return "abort".to_string();
+        }
+        let pid = libc::fork();
+        if pid < 0 {
+            return "abort".to_string();
+        }
+        if pid == 0 {
+            libc::close(fds[0]);
+            let devnull = libc::open(b"/dev/null\0".as_ptr() as *const libc::c_char, libc::O_WRONLY);
+            if devnull >= 0 {
+                libc::dup2(devnull, 2);
+            }
+            let lim = libc::rlimit { rlim_cur: 4 << 30, rlim_max: 4 << 30 };
+            libc::setrlimit(libc::RLIMIT_AS, &lim);
+            libc::alarm(30);
+            let msg = work();
+            let b = msg.as_bytes();
+            let mut off = 0;
+            while off < b.len() {
+                let n = libc::write(fds[1], b[off..].as_ptr() as *const libc::c_void, b.len() - off);
+                if n <= 0 {
+                    break;
+                }
+                off += n as usize;
+            }
+            libc::_exit(0);
+        }
+        libc::close(fds[1]);
+        let mut buf = Vec::new();
+        let mut chunk = [0u8; 4096];
+        loop {
+            let n = libc::read(fds[0], chunk.as_mut_ptr() as *mut libc::c_void, chunk.len());
+            if n <= 0 {
+                break;
+            }
+            buf.extend_from_slice(&chunk[..n as usize]);
+        }
+        libc::close(fds[0]);
+        let mut status = 0i32;
+        libc::waitpid(pid, &mut status, 0);
+        if !(libc::WIFEXITED(status) && libc::WEXITSTATUS(status) == 0) || buf.is_empty() {
+            return "abort".to_string();
+        }
+        String::from_utf8_lossy(&buf).to_string()
+    }
+}
+
 #[derive(Clone, Debug, PartialEq)]
 enum Out {
     Ok(f64),
@@ -166,7 +233,7 @@ fn gen_axis(rng: &mut Rng, n: usize) -> Vec<f64> {
             // uniform, as the speed/grade model builds it
             let lo = rng.range(-40, 40) as f64 * 0.5;
             let w = rng.small_decimal(60, 1) + 0.5;
-            linspace(lo, lo + w, n.max(1))
+            lin(lo, lo + w, n.max(1))
         }
         1 => {
             let lo = rng.range(-20, 20);
@@ -627,21 +694,38 @@ fn case_fni(ctx: &mut Ctx, idx: usize, g: Vec<f64>, t: f64) {
 }
 
 fn case_lin(ctx: &mut Ctx, idx: usize, a: f64, b: f64, n: usize) {
+    let line = format!("lin {} {} {} {}", fbits(a), fbits(b), n, CAP);
+    ctx.count("linspace");
+    if n as u64 > CAP {
+        // a count that cannot be allocated: an Err (before the repair `vec![x0; n]` aborted the process or
+        // panicked with "capacity overflow"); in a child, so that a regression cannot take the harness down
+        let out = forked(&mut || match catch_unwind(AssertUnwindSafe(|| linspace(a, b, n))) {
+            Ok(Ok(v)) => format!("ok {}", v.len()),
+            Ok(Err(_)) => "err".to_string(),
+            Err(_) => "panic".to_string(),
+        });
+        if out != "err" {
+            ctx.fail(idx, "speed_grade/unallocatable_bins", format!("linspace({}, {}, {}) gave {} instead of an error", a, b, n, out));
+        }
+        ctx.count("linspace_unallocatable");
+        ctx.emit(idx, line, out);
+        return;
+    }
     let r = catch_unwind(AssertUnwindSafe(|| linspace(a, b, n)));
     let out = match &r {
-        Ok(v) => format!("ok {} {}", v.len(), v.iter().map(|x| fo(*x)).collect::<Vec<_>>().join(" ")).trim_end().to_string(),
+        Ok(Ok(v)) => format!("ok {} {}", v.len(), v.iter().map(|x| fo(*x)).collect::<Vec<_>>().join(" ")).trim_end().to_string(),
+        Ok(Err(_)) => "err".to_string(),
         Err(_) => "panic".to_string(),
     };
     // regression (fixed): n = 0 underflowed `n - 1`
     match &r {
-        Ok(v) if v.len() == n => {}
+        Ok(Ok(v)) if v.len() == n => {}
         other => ctx.fail(idx, "linspace/zero_underflow", format!("linspace({}, {}, {}) gave {:?}", a, b, n, other.as_ref().map_err(|_| "panic"))),
     }
-    ctx.emit(idx, format!("lin {} {} {}", fbits(a), fbits(b), n), out);
-    ctx.count("linspace");
-    if let Ok(v) = &r {
+    ctx.emit(idx, line.clone(), out);
+    if let Ok(Ok(v)) = &r {
         if n >= 2 {
-            ctx.nontrivial(&format!("lin {} {} {}", fbits(a), fbits(b), n));
+            ctx.nontrivial(&line);
             let w = (b - a).abs().max(a.abs()).max(b.abs());
             if v.len() != n || v[0] != a || (v[n - 1] - b).abs() > 1e-9 * w + 1e-300 {
                 ctx.fail(idx, "linspace/endpoints", format!("linspace({}, {}, {}) = {:?}", a, b, n, v));
@@ -920,8 +1004,9 @@ fn case_sg(ctx: &mut Ctx, idx: usize, und: &Underlying, spec: &SgSpec, queries: 
     // the underlying model as `new` will see it (same file, same units); raw underlying rates at the grid
     // points (grid by the real linspace).  The nested underlying model is real code too: its failures are
     // findings, not harness errors.
-    let xs = if spec.sb == 0 { vec![] } else { linspace(spec.s0, spec.s1, spec.sb) };
-    let ys = if spec.gb == 0 { vec![] } else { linspace(spec.g0, spec.g1, spec.gb) };
+    let huge = unallocatable(spec.sb, spec.gb);
+    let xs = if huge { vec![] } else { lin(spec.s0, spec.s1, spec.sb) };
+    let ys = if huge { vec![] } else { lin(spec.g0, spec.g1, spec.gb) };
     let table = catch_unwind(AssertUnwindSafe(|| -> Result<Vec<Vec<f64>>, String> {
         let nested_model = match spec.nested {
             None => None,
@@ -961,8 +1046,8 @@ fn case_sg(ctx: &mut Ctx, idx: usize, und: &Underlying, spec: &SgSpec, queries: 
     };
 
     let mut line = format!(
-        "sg {} {} {} {} {} {} {} {} {} {}",
-        spec.su, spec.gu, spec.ru, fbits(spec.s0), fbits(spec.s1), spec.sb, fbits(spec.g0), fbits(spec.g1), spec.gb, u.len()
+        "sg {} {} {} {} {} {} {} {} {} {} {}",
+        spec.su, spec.gu, spec.ru, fbits(spec.s0), fbits(spec.s1), spec.sb, fbits(spec.g0), fbits(spec.g1), spec.gb, CAP, u.len()
     );
     for r in &u {
         line.push(' ');
@@ -973,6 +1058,25 @@ fn case_sg(ctx: &mut Ctx, idx: usize, und: &Underlying, spec: &SgSpec, queries: 
         line.push_str(&format!(" {} {} {} {}", fbits(q.s), q.su, fbits(q.g), q.gu));
     }
 
+    if huge {
+        // bin counts (or a table) that cannot be allocated: new() must return an error, before predicting
+        // anything; in a child, because the unrepaired code aborts the process
+        let out = forked(&mut || {
+            match catch_unwind(AssertUnwindSafe(|| {
+                InterpolationSpeedGradeModel::new(&path, sg_model_type(spec), "m".to_string(), spec.su, (Speed::new(spec.s0), Speed::new(spec.s1)), spec.sb, spec.gu, (Grade::new(spec.g0), Grade::new(spec.g1)), spec.gb, spec.ru).is_ok()
+            })) {
+                Ok(true) => "new ok".to_string(),
+                Ok(false) => "new err".to_string(),
+                Err(_) => "new panic".to_string(),
+            }
+        });
+        if out != "new err" {
+            ctx.fail(idx, "speed_grade/unallocatable_bins", format!("InterpolationSpeedGradeModel::new with {} x {} bins gave '{}' instead of an error", spec.sb, spec.gb, out));
+        }
+        ctx.count("sg_unallocatable_bins");
+        ctx.emit(idx, line, out);
+        return;
+    }
     let built = catch_unwind(AssertUnwindSafe(|| {
         InterpolationSpeedGradeModel::new(
             &path,
@@ -1120,8 +1224,8 @@ fn gen_sg(rng: &mut Rng, realistic: bool, n_models: usize) -> SgSpec {
 }
 
 fn gen_queries(rng: &mut Rng, spec: &SgSpec, n: usize) -> Vec<Query> {
-    let xs = linspace(spec.s0, spec.s1, spec.sb.max(1));
-    let ys = linspace(spec.g0, spec.g1, spec.gb.max(1));
+    let xs = lin(spec.s0, spec.s1, spec.sb.max(1));
+    let ys = lin(spec.g0, spec.g1, spec.gb.max(1));
     let mut qs: Vec<Query> = vec![];
     for _ in 0..n {
         let same_units = rng.chance(1, 2);
@@ -1209,8 +1313,15 @@ impl Mt {
     /// every interpolation level has at least two bins per axis and increasing bounds
     fn grids_valid(&self) -> bool {
         match self {
-            Mt::Interpolate(u, a, b, n, c, d, m) => u.grids_valid() && *n >= 2 && *m >= 2 && a < b && c < d,
+            Mt::Interpolate(u, a, b, n, c, d, m) => u.grids_valid() && *n >= 2 && *m >= 2 && a < b && c < d && !unallocatable(*n, *m),
             _ => true,
+        }
+    }
+    /// some interpolation level asks for bins that cannot be allocated
+    fn has_unallocatable(&self) -> bool {
+        match self {
+            Mt::Interpolate(u, _, _, n, _, _, m) => unallocatable(*n, *m) || u.has_unallocatable(),
+            _ => false,
         }
     }
     /// the grid of the innermost interpolation level (the one filled from the random forest)
@@ -1218,7 +1329,8 @@ impl Mt {
         match self {
             Mt::Interpolate(u, a, b, n, c, d, m) => match **u {
                 Mt::Interpolate(..) => u.innermost_grid(),
-                _ => Some((linspace(*a, *b, *n), linspace(*c, *d, *m))),
+                _ if unallocatable(*n, *m) => None,
+                _ => Some((lin(*a, *b, *n), lin(*c, *d, *m))),
             },
             _ => None,
         }
@@ -1249,11 +1361,18 @@ fn gen_mt(rng: &mut Rng, su: &SpeedUnit, gu: &GradeUnit, depth: usize) -> Mt {
         let mut sb = 2 + rng.below(9);
         let mut gb = 2 + rng.below(9);
         // degenerate configurations: too few bins, bounds not increasing
-        match rng.below(16) {
+        match rng.below(20) {
             0 => sb = rng.below(2),
             1 => gb = rng.below(2),
             2 => s1 = s0,
             3 => g1 = g0 - 0.5 * dec,
+            // bin counts that cannot be allocated: one axis, or only the table of the two
+            4 => sb = *rng.pick(&[4_000_000_000_000usize, usize::MAX, 1 << 33, 1 << 62]),
+            5 => gb = *rng.pick(&[4_000_000_000_000usize, usize::MAX, 1 << 33, (1 << 63) + 1]),
+            6 => {
+                sb = 1_000_000 + rng.below(2_000_000);
+                gb = 1_000_000 + rng.below(2_000_000);
+            }
             _ => {}
         }
         Mt::Interpolate(Box::new(gen_mt(rng, su, gu, depth + 1)), s0, s1, sb, g0, g1, gb)
@@ -1395,7 +1514,7 @@ fn case_lpm(ctx: &mut Ctx, idx: usize, und: &Underlying, rng: &mut Rng) {
         Some(x) => format!("s {}", fbits(*x)),
         None => "n".to_string(),
     };
-    let mut line = format!("lpm {} {} {} {} {} {} {} {} {}", mt.text(), su, gu, ru, if file_ok { 1 } else { 0 }, opt(&ideal), opt(&adj), points_text(&tbl), qs.len());
+    let mut line = format!("lpm {} {} {} {} {} {} {} {} {} {}", mt.text(), su, gu, ru, if file_ok { 1 } else { 0 }, CAP, opt(&ideal), opt(&adj), points_text(&tbl), qs.len());
     for (s, qsu, g, qgu, d, du) in &qs {
         line.push_str(&format!(" {} {} {} {} {} {}", fbits(*s), qsu, fbits(*g), qgu, fbits(*d), du));
     }
@@ -1406,6 +1525,25 @@ fn case_lpm(ctx: &mut Ctx, idx: usize, und: &Underlying, rng: &mut Rng) {
         (false, true) => "load_ideal_swept_adjustment_given",
         (false, false) => "load_ideal_swept_adjustment_default",
     });
+    if mt.has_unallocatable() {
+        // a level whose axes or table cannot be allocated: an error (whatever else is wrong with the
+        // configuration), in a child because the unrepaired code aborts the process
+        let out = forked(&mut || {
+            match catch_unwind(AssertUnwindSafe(|| {
+                load_prediction_model("m".to_string(), &path, mt.real(), su, gu, ru, ideal.map(EnergyRate::new), adj, None).is_ok()
+            })) {
+                Ok(true) => "ok".to_string(),
+                Ok(false) => "err".to_string(),
+                Err(_) => "panic".to_string(),
+            }
+        });
+        if out != "err" {
+            ctx.fail(idx, "speed_grade/unallocatable_bins", format!("load_prediction_model with {} gave '{}' instead of an error", mt.text(), out));
+        }
+        ctx.count("load_unallocatable_bins");
+        ctx.emit(idx, line, out);
+        return;
+    }
     let loaded = catch_unwind(AssertUnwindSafe(|| {
         load_prediction_model("m".to_string(), &path, mt.real(), su, gu, ru, ideal.map(EnergyRate::new), adj, None)
     }));
@@ -1534,7 +1672,7 @@ pub fn run(ctx: &mut Ctx) -> &'static str {
             let Some(idx) = ctx.begin() else { continue };
             case_fni(ctx, idx, g, t);
         }
-        for (a, b, n) in [(0.0, 1.0, 0usize), (0.0, 1.0, 1), (0.0, 1.0, 2), (0.0, 100.0, 101), (-0.2, 0.2, 41), (3.0, 3.0, 4), (5.0, 1.0, 3)] {
+        for (a, b, n) in [(0.0, 1.0, 0usize), (0.0, 1.0, 1), (0.0, 1.0, 2), (0.0, 100.0, 101), (-0.2, 0.2, 41), (3.0, 3.0, 4), (5.0, 1.0, 3), (0.0, 1.0, usize::MAX), (0.0, 100.0, 4_000_000_000_000), (0.0, 1.0, 1 << 40), (0.0, 1.0, 1 << 62)] {
             let Some(idx) = ctx.begin() else { continue };
             case_lin(ctx, idx, a, b, n);
         }
@@ -1709,7 +1847,7 @@ pub fn run(ctx: &mut Ctx) -> &'static str {
             q(200.0, SpeedUnit::KilometersPerHour, 300.0, GradeUnit::Millis),
             q(-3.0, SpeedUnit::MetersPerSecond, -30.0, GradeUnit::Percent),
         ];
-        for (sb, gb, s1) in [(101usize, 41usize, 100.0), (0, 41, 100.0), (5, 0, 100.0), (1, 5, 100.0), (5, 1, 100.0), (1, 1, 100.0), (5, 5, 0.0), (5, 5, -10.0), (2, 2, 100.0)] {
+        for (sb, gb, s1) in [(101usize, 41usize, 100.0), (0, 41, 100.0), (5, 0, 100.0), (1, 5, 100.0), (5, 1, 100.0), (1, 1, 100.0), (5, 5, 0.0), (5, 5, -10.0), (2, 2, 100.0), (4_000_000_000_000, 41, 100.0), (101, usize::MAX, 100.0), (usize::MAX, usize::MAX, 100.0), (3_000_000, 3_000_000, 100.0), (1 << 40, 0, 100.0)] {
             let Some(idx) = ctx.begin() else { continue };
             let mut spec = base.clone();
             spec.sb = sb;
@@ -1872,6 +2010,72 @@ pub fn run(ctx: &mut Ctx) -> &'static str {
                         });
                         if *o == Out::Panic {
                             ctx.fail(idx, "interp/panic_validated", format!("table with NaN values panicked on the validated path ({}-D, nd={})", d, nd));
+                        }
+                    }
+                    ctx.nontrivial(&line);
+                    ctx.emit(idx, line, outs.iter().map(|o| o.text()).collect::<Vec<_>>().join(" "));
+                }
+            }
+        }
+    }
+    // ---- tables whose first / last grid line is -inf / +inf (accepted: strictly increasing); fractions become
+    // inf/inf = NaN or x/inf = 0: model and code must agree bit for bit, and the validated path must not panic
+    for k in 0..ctx.n(120, 3000) {
+        let mut rng = Rng::for_case(ctx.seed, 14, 3_000_000 + k as u64);
+        let d = 1 + rng.below(3);
+        let mut t = gen_table(&mut rng, d, 4, false);
+        t.multilinear = None;
+        for a in 0..d {
+            match rng.below(4) {
+                0 => t.axes[a][0] = f64::NEG_INFINITY,
+                1 => {
+                    let n = t.axes[a].len();
+                    t.axes[a][n - 1] = f64::INFINITY;
+                }
+                2 => {
+                    let n = t.axes[a].len();
+                    t.axes[a][0] = f64::NEG_INFINITY;
+                    t.axes[a][n - 1] = f64::INFINITY;
+                }
+                _ => {}
+            }
+        }
+        let mut pts = vec![];
+        for _ in 0..5 {
+            let p: Vec<f64> = (0..d)
+                .map(|a| {
+                    let g = &t.axes[a];
+                    match rng.below(5) {
+                        0 => g[rng.below(g.len())],
+                        1 => f64::INFINITY,
+                        2 => f64::NEG_INFINITY,
+                        _ => {
+                            let lo = if g[0].is_finite() { g[0] } else { g[1].min(0.0) - 10.0 };
+                            let hi = if g[g.len() - 1].is_finite() { g[g.len() - 1] } else { g[g.len() - 2].max(0.0) + 10.0 };
+                            rng.uniform(lo.min(hi), hi.max(lo))
+                        }
+                    }
+                })
+                .collect();
+            pts.push(p);
+        }
+        let pts = plain_points(pts);
+        for nd in [false, true] {
+            let Some(idx) = ctx.begin() else { continue };
+            let line = format!("{} v L {} {}", if nd { "in".to_string() } else { format!("i{}", d) }, table_text(&t, nd), pts_text(&pts.pts));
+            match build(&t, nd) {
+                Err(is_err) => ctx.emit(idx, line, if is_err { "new err".to_string() } else { "new panic".to_string() }),
+                Ok(b) => {
+                    let outs = eval(b, false, 1, &pts.pts);
+                    for o in &outs {
+                        ctx.count(match o {
+                            Out::Ok(v) if v.is_nan() => "inf_grid_result_nan",
+                            Out::Ok(_) => "inf_grid_result_value",
+                            Out::Err => "inf_grid_rejected",
+                            Out::Panic => "inf_grid_panic",
+                        });
+                        if *o == Out::Panic {
+                            ctx.fail(idx, "interp/panic_validated", format!("grid with infinite lines panicked on the validated path ({}-D, nd={})", d, nd));
                         }
                     }
                     ctx.nontrivial(&line);
